@@ -198,7 +198,7 @@ func genC03(tier string, seed int64) []Case {
 	// sampled orders for the large configuration
 	n := 60
 	if tier == "thorough" {
-		n = 3000
+		n = 12000
 	}
 	for k := 0; k < n; k++ {
 		ne, ni := 1+r.Intn(3), r.Intn(3)
@@ -663,7 +663,7 @@ func genC04(tier string, seed int64) []Case {
 	}
 	n := 0
 	if tier == "thorough" {
-		n = 2500
+		n = 10000
 	}
 	for k := 0; k < n; k++ {
 		ne, ni := r.Intn(4), r.Intn(3)
